@@ -207,9 +207,10 @@ class Builder:
     list of scopes; a name resolves to the innermost declaration that textually precedes the use,
     in this function or an enclosing one, else to the module global (d = 0)."""
 
-    def __init__(self):
+    def __init__(self, first_decl=1):
         self.toks = []
-        self.next_decl = 1
+        self.ln = None              # explicit source line for the tokens that follow (prelude only)
+        self.next_decl = first_decl
         self.funcs = [{"scopes": [[]], "script": True}]   # stack of function contexts
         self.opens = []
 
@@ -255,7 +256,13 @@ class Builder:
 
     # -- statements
     def emit(self, **kw):
+        if self.ln is not None:
+            kw["ln"] = self.ln
         self.toks.append(kw)
+        return self
+
+    def at(self, line):
+        self.ln = line
         return self
 
     def print(self, e):
@@ -268,6 +275,8 @@ class Builder:
         # the initialiser is resolved before the declaration is visible
         tok = {"t": "var", "x": name, "e": e, "d": None}
         tok["d"] = self.declare(name)
+        if self.ln is not None:
+            tok["ln"] = self.ln
         self.toks.append(tok)
         return self
 
